@@ -66,6 +66,10 @@ var c10Docs = []string{
 	`{"a":"x","l":["p","q","r"],"o":{"b":[1,"y"],"l":["z"]},"s":""}`,
 	`{"a":2.5,"l":[true,2],"o":{"b":{"c":"deep"},"l":[[1],[2]]},"s":"u,v"}`,
 	`{"a":3,"l":[4,5],"o":{"b":"x","l":[6,7.5]},"s":"1,2","v":[1,2,4]}`,
+	// a document is a document with blanks around it and inside it (the output
+	// of an encoder ends in a line feed; a pretty printer indents)
+	" {\"a\":7,\"l\":[8,\"w\"],\"o\":{\"b\":\"x\",\"l\":[9]},\"s\":\"t\"}\n",
+	"\t{ \"a\" : \"y\" ,\n  \"l\" : [ 1 , 2 ] , \"o\" : { \"b\" : \"x\" , \"l\" : [ 3 ] } , \"s\" : \"\" }\r\n",
 }
 
 func c10Stores() [][]store.Pair {
